@@ -560,6 +560,8 @@ impl<Writer: Write> Mp4Writer<Writer> {
             .as_ref()
             .ok_or(Mp4WriterError::AudioNotEnabled)?;
 
+        // The previous sample's duration is only patched once this sample has been accepted.
+        let mut pending_delta: Option<u32> = None;
         if let Some(prev) = self.audio_prev_pts {
             if pts < prev {
                 return Err(Mp4WriterError::NonIncreasingTimestamp);
@@ -568,11 +570,7 @@ impl<Writer: Write> Mp4Writer<Writer> {
             if delta > u64::from(u32::MAX) {
                 return Err(Mp4WriterError::DurationOverflow);
             }
-            let delta = delta as u32;
-            if let Some(last) = self.audio_samples.last_mut() {
-                last.duration = Some(delta);
-            }
-            self.audio_last_delta = Some(delta);
+            pending_delta = Some(delta as u32);
         }
 
         // Process audio data based on codec
@@ -612,6 +610,13 @@ impl<Writer: Write> Mp4Writer<Writer> {
 
         if sample_data.len() > u32::MAX as usize {
             return Err(Mp4WriterError::DurationOverflow);
+        }
+
+        if let Some(delta) = pending_delta {
+            if let Some(last) = self.audio_samples.last_mut() {
+                last.duration = Some(delta);
+            }
+            self.audio_last_delta = Some(delta);
         }
 
         self.audio_samples.push(SampleInfo {
